@@ -22,6 +22,8 @@ const WriterLock = "sqlite-writer"
 // handle is the wrapper) because pithos decides "same database?" by handle identity.
 type DB struct {
 	Inner database.Database
+	// Name distinguishes the writer connections of several databases in one scenario.
+	Name string
 	// Rollbacks counts finalisations of read-only transactions by rollback (C36).
 }
 
@@ -37,21 +39,23 @@ func (d *DB) BeginTx(ctx context.Context, opts *sql.TxOptions) (*database.TxCont
 	}
 	if s := Current(); s != nil && s.isActive() {
 		if readOnly {
-			Point("db.begin.read", nil)
+			Point("db.begin.read"+d.Name, nil)
 		} else {
-			Point("db.begin.write", func() bool { return s.Holder(WriterLock) < 0 })
-			s.Acquire(WriterLock)
+			Point("db.begin.write"+d.Name, func() bool { return s.Holder(d.lock()) < 0 })
+			s.Acquire(d.lock())
 		}
 	}
 	tx, err := d.Inner.BeginTx(ctx, opts)
 	if err != nil {
 		if s := Current(); s != nil && !readOnly {
-			s.Release(WriterLock)
+			s.Release(d.lock())
 		}
 		return nil, err
 	}
 	return database.NewTxController(tx.SqlTx(), d, readOnly), nil
 }
+func (d *DB) lock() string { return WriterLock + d.Name }
+
 func (d *DB) PingContext(ctx context.Context) error  { return d.Inner.PingContext(ctx) }
 func (d *DB) Close() error                           { return d.Inner.Close() }
 func (d *DB) GetDatabaseType() database.DatabaseType { return d.Inner.GetDatabaseType() }
@@ -90,8 +94,14 @@ func InstallTxHooks(extra func(site string, args ...any)) func() {
 			return
 		}
 		release := func() {
-			if tc != nil && !tc.ReadOnly() && s.Holder(WriterLock) == s.Me() {
-				s.Release(WriterLock)
+			lock := WriterLock
+			if tc != nil {
+				if d, ok := tc.DBHandle().(*DB); ok {
+					lock = d.lock()
+				}
+			}
+			if tc != nil && !tc.ReadOnly() && s.Holder(lock) == s.Me() {
+				s.Release(lock)
 			}
 		}
 		switch site {
